@@ -50,7 +50,15 @@ reg("C14", "proof",
     "disparities; otherwise untouched); interpolate_occlusion_mc_cnn and the two drivers by the bounded stand-in.",
     trusted=["assumed contracts: np.nanmedian (NaN iff all NaN, else between two non-NaN elements), np.argsort (a permutation), "
              "np.sum over non-negative flags (0 iff all 0)"])
-for _pid in ["C01", "C02", "C04", "C05", "C07", "C08", "C09", "C10", "C12", "C13", "C15", "C16", "C17", "C18", "C19", "C20"]:
+reg("C08", "proof",
+    "right products = left products of the mirrored problem: every <step>_run callback (and matching_cost_prepare, "
+    "run_multiscale) of the state machine is executed symbolically with the step operations uninterpreted; proved: with right "
+    "products enabled the multiset of effects (calls, field stores) on the left/right records is invariant under exchanging "
+    "the records (argument order, interval variables, no forgotten right call); without, no right field is written. "
+    "The composition over whole pipelines and the numeric step operations are covered by the bounded stand-in.",
+    assumptions=["step operations are deterministic functions of their arguments' contents (C18); cross-checking does not alter "
+                 "disparities (C07 frame), so the sequential left-then-right validation equals the simultaneous one"])
+for _pid in ["C01", "C02", "C04", "C05", "C07", "C09", "C10", "C12", "C13", "C15", "C16", "C17", "C18", "C19", "C20"]:
     reg(_pid, "other", BOUNDED_ONLY)
 
 FIX_COMMITS = ['c8eaaa2', '39f21c5', '00e445f', 'cea0f99', '62af5fc', 'd016e8e', 'a2233a1', '3bbb417', 'bdac312', '35f4fa5', 'bcaad45', '42d03b2', 'fd4d6b2', '756db6e', 'abbd602', 'a62df76']
